@@ -64,7 +64,8 @@ def sym_worker(pid, hname, config, tier):
     ctx = core.SymCtx(query_timeout_ms=h.query_timeout_ms, max_paths=h.max_paths, wall_s=wall, known=known)
     ctx.keep_uf = h.keep_uf
     if tier == "thorough":
-        ctx.max_recorded_paths = 1500
+        ctx.max_recorded_paths = 400
+        ctx.record_stride = 3
     t0 = time.time()
     status = "ok"
     err = None
@@ -292,12 +293,12 @@ def main(argv=None):
     max_path_replays = 40 if args.tier == "quick" else 400
     for r in results:
         for c in r.get("candidates", []):
-            items.append({"kind": "cex", "harness": r["harness"], "config": r["config"], "inputs": c["inputs"], "label": c["label"], "hint": c.get("finding_hint"), "trace": c.get("trace")})
+            items.append({"kind": "cex", "harness": r["harness"], "config": r["config"], "inputs": c["inputs"], "inputs_alt": c.get("inputs_alt"), "label": c["label"], "hint": c.get("finding_hint"), "trace": c.get("trace")})
         recs = r.get("path_records", [])
         if len(recs) > max_path_replays:
             recs = rnd.sample(recs, max_path_replays)
         for p in recs:
-            items.append({"kind": "path", "harness": r["harness"], "config": r["config"], "inputs": p["inputs"], "obs": p["obs"]})
+            items.append({"kind": "path", "harness": r["harness"], "config": r["config"], "inputs": p["inputs"], "inputs_alt": p.get("inputs_alt"), "obs": p["obs"]})
     rep = run_replays(pid, items, args.jobs) if items else []
 
     violations = []
@@ -312,6 +313,8 @@ def main(argv=None):
             if not reproduced:
                 unreproduced.append({"harness": it["harness"], "config": it["config"], "label": it["label"], "inputs": it["inputs"], "replay": rr})
                 continue
+            if rr.get("used_alt"):
+                it = dict(it, inputs=it["inputs_alt"], inputs_alt=None)
             k = classify(pid, it["harness"], it["config"], it["label"], rr.get("inputs", it["inputs"]), known)
             if k is not None:
                 known_seen.setdefault(k["id"], {"finding": k, "example": it})
